@@ -13,6 +13,7 @@ import (
 	"text/template"
 	"text/template/parse"
 
+	"github.com/google/safehtml"
 	"github.com/google/safehtml/internal/safehtmlutil"
 )
 
@@ -90,6 +91,9 @@ type escaper struct {
 	derived map[string]*template.Template
 	// called[templateName] is a set of called mangled template names.
 	called map[string]bool
+	// entryValue[templateName] is the static attribute value text that preceded the call for
+	// which the mangled templateName was escaped. output[templateName].attr.value starts with it.
+	entryValue map[string]string
 	// xxxNodeEdits are the accumulated edits to apply during commit.
 	// Such edits are not applied immediately in case a template set
 	// executes a given template in different escaping contexts.
@@ -105,6 +109,7 @@ func makeEscaper(n *nameSpace) escaper {
 		map[string]context{},
 		map[string]*template.Template{},
 		map[string]bool{},
+		map[string]string{},
 		map[*parse.ActionNode][]string{},
 		map[*parse.TemplateNode]string{},
 		map[*parse.TextNode][]byte{},
@@ -497,6 +502,9 @@ func (e *escaper) escapeListConditionally(c context, n *parse.ListNode, filter f
 	for k, v := range e.output {
 		e1.output[k] = v
 	}
+	for k, v := range e.entryValue {
+		e1.entryValue[k] = v
+	}
 	c = e1.escapeList(c, n)
 	ok := filter != nil && filter(&e1, c)
 	if ok {
@@ -509,6 +517,9 @@ func (e *escaper) escapeListConditionally(c context, n *parse.ListNode, filter f
 		}
 		for k, v := range e1.called {
 			e.called[k] = v
+		}
+		for k, v := range e1.entryValue {
+			e.entryValue[k] = v
 		}
 		for k, v := range e1.actionNodeEdits {
 			e.editActionNode(k, v)
@@ -611,29 +622,55 @@ func attrValuePrefixClass(c context) string {
 	case !sc.isURLorTrustedResourceURL():
 		return ""
 	}
-	if sc != sanitizationContextTrustedResourceURL && strings.ContainsAny(html.UnescapeString(c.attr.value), "#?") {
+	// What the rest of the value can still change is described by three things: how the value
+	// starts (head), whether it has entered the query or fragment, and an incomplete character
+	// reference or percent escape at its end (tail).
+	decoded := html.UnescapeString(c.attr.value)
+	if containsWhitespaceOrControlPattern.MatchString(c.attr.value) || containsWhitespaceOrControlPattern.MatchString(decoded) {
+		return "_valSpace" // rejected whatever follows
+	}
+	limited := func(s string, n int) string {
+		if len(s) > n {
+			return "..." // keeps the classes finitely many
+		}
+		return strings.ToLower(s)
+	}
+	var head string
+	switch {
+	case sc == sanitizationContextTrustedResourceURL:
+		if safehtmlutil.IsSafeTrustedResourceURLPrefix(decoded) {
+			head = "Trusted"
+		} else {
+			head = "Untrusted(" + limited(decoded, 64) + ")"
+		}
+	case startsWithFullySpecifiedSchemePattern.MatchString(decoded):
+		scheme := strings.ToLower(decoded[:strings.IndexByte(decoded, ':')])
+		switch {
+		case scheme == "data":
+			head = "Data(" + limited(decoded, 128) + ")" // judged as a whole
+		case safehtml.URLSanitized(decoded).String() == decoded:
+			head = "SafeScheme"
+		default:
+			head = "UnsafeScheme"
+		}
+	case strings.ContainsAny(decoded, "/?#"):
+		head = "Relative"
+	default:
+		head = "SchemePart(" + limited(decoded, 32) + ")" // the called template may complete the scheme
+	}
+	if sc != sanitizationContextTrustedResourceURL && strings.ContainsAny(decoded, "#?") {
 		// Everything after the start of the query or fragment is in this class, also a
 		// value that currently ends in an incomplete character reference ("...&").
-		return "_valQuery"
+		return "_val" + head + "Query"
 	}
-	validator, ok := urlPrefixValidators[sc]
-	if !ok {
-		return "_valUnknown"
+	tail := endsWithCharRefPrefixPattern.FindString(c.attr.value)
+	if tail == "" {
+		tail = endsWithPercentEncodingPrefixPattern.FindString(decoded)
 	}
-	if err := validator(c.attr.value); err != nil {
-		// Actions after this prefix are rejected, unless the called template completes it.
-		decoded := html.UnescapeString(c.attr.value)
-		switch {
-		case containsWhitespaceOrControlPattern.MatchString(c.attr.value) || containsWhitespaceOrControlPattern.MatchString(decoded):
-			return "_valSpace"
-		case startsWithFullySpecifiedSchemePattern.MatchString(decoded):
-			return "_valScheme"
-		case !strings.ContainsAny(decoded, "/?#"):
-			return "_valSchemePart"
-		}
-		return "_valIncomplete"
+	if tail != "" {
+		tail = "_tail(" + limited(tail, 16) + ")"
 	}
-	return "_valPath"
+	return "_val" + head + tail
 }
 
 // escapeTree escapes the named template starting in the given context as
@@ -653,9 +690,14 @@ func (e *escaper) escapeTree(c context, node parse.Node, name string, line int) 
 		}, dname
 	}
 	if out, ok := e.output[dname]; ok {
-		// Already escaped.
+		// Already escaped, possibly for a call after other static attribute value text of the
+		// same class: what the template appends to the value follows the text at this call.
+		if entry, ok := e.entryValue[dname]; ok && out.state == stateAttr && strings.HasPrefix(out.attr.value, entry) {
+			out.attr.value = c.attr.value + out.attr.value[len(entry):]
+		}
 		return out, dname
 	}
+	e.entryValue[dname] = c.attr.value
 	t := e.template(name)
 	if t == nil {
 		// Two cases: The template exists but is empty, or has never been mentioned at
